@@ -684,7 +684,8 @@ class Traffic:
             # Do not buffer if never used again
             if trace[num_ranks * 2 + 2] is None:
                 if obj in objs[tensor][type_]:
-                    if next_evict and next_evict[0].obj == obj:
+                    if next_evict and next_evict[0].obj == obj \
+                            and next_evict[0].pos == bind_pos:
                         list_elem = next_evict.pop(0)
                     else:
                         assert obj in pinned[tensor][type_]
